@@ -43,7 +43,7 @@ type C07Config struct {
 // Op is one step of the machine. All fields are small integers that are
 // resolved against the state that exists when the step executes.
 type Op struct {
-	K string `json:"k"` // mine pay fund release submit redist split reorg restart expire
+	K string `json:"k"` // mine pay fund release submit redist split reorg restart expire sync
 	// N: count (blocks, outputs, depth, request index, split parts)
 	N int `json:"n,omitempty"`
 	// A: amount selector, F: permille / secondary selector
@@ -54,6 +54,9 @@ type Op struct {
 	// U: useUnconfirmed; V2: v2 flavour of fund / pay
 	U  bool `json:"u,omitempty"`
 	V2 bool `json:"v2,omitempty"`
+	// Lag: (mine, reorg) the wallet is not fed the new blocks; it stays at its
+	// own tip until a later non-lagging chain op or a "sync" op
+	Lag bool `json:"lag,omitempty"`
 	// Sizes: payment output sizes (indices into paySizes)
 	Sizes []int `json:"sizes,omitempty"`
 }
@@ -99,7 +102,7 @@ func genOp(t *rapid.T, cfg C07Config) Op {
 		k string
 		w int
 	}
-	kinds := []wk{{"mine", 4}, {"pay", 4}, {"fund", 11}, {"release", 2}, {"submit", 6}, {"redist", 2}, {"split", 2}, {"reorg", 1}, {"restart", 2}}
+	kinds := []wk{{"mine", 4}, {"pay", 4}, {"fund", 11}, {"release", 2}, {"submit", 6}, {"redist", 2}, {"split", 2}, {"reorg", 1}, {"restart", 2}, {"sync", 2}}
 	if cfg.ShortReservation {
 		kinds = append(kinds, wk{"expire", 2})
 	}
@@ -124,6 +127,7 @@ func genOp(t *rapid.T, cfg C07Config) Op {
 	case "mine":
 		op.N = rapid.IntRange(1, 3).Draw(t, "blocks")
 		op.B = rapid.IntRange(0, 5).Draw(t, "target") // 0,1,2: wallet; 3,4: payer; 5: payer, pool left alone
+		op.Lag = rapid.IntRange(0, 3).Draw(t, "lag") == 0
 	case "pay":
 		op.Sizes = genSizes(t, 12)
 		op.V2 = v2Likely
@@ -154,6 +158,7 @@ func genOp(t *rapid.T, cfg C07Config) Op {
 	case "reorg":
 		op.N = rapid.IntRange(1, 4).Draw(t, "depth")
 		op.B = rapid.IntRange(0, 1).Draw(t, "fork-miner")
+		op.Lag = rapid.IntRange(0, 3).Draw(t, "lag") == 0
 	case "restart":
 		op.B = rapid.IntRange(0, 1).Draw(t, "fresh-manager")
 	}
@@ -220,6 +225,12 @@ type world struct {
 	waddr types.Address
 	ws    *testutil.EphemeralWalletStore
 	w     *wallet.SingleAddressWallet
+
+	// ts/tw: a second store for the wallet's address that is fed every chain
+	// change at once; it is the reference for "really unspent at the chain's
+	// tip" while the wallet under test lags behind
+	ts *testutil.EphemeralWalletStore
+	tw *wallet.SingleAddressWallet
 
 	pkey  types.PrivateKey
 	paddr types.Address
@@ -332,6 +343,7 @@ func newWorld(cfg C07Config, cs *kit.CaseStats) (*world, error) {
 	}
 	wd.ws = testutil.NewEphemeralWalletStore()
 	wd.ps = testutil.NewEphemeralWalletStore()
+	wd.ts = testutil.NewEphemeralWalletStore()
 	if err := wd.openWallets(); err != nil {
 		return nil, err
 	}
@@ -344,6 +356,10 @@ func (wd *world) openWallets() (err error) {
 		return err
 	}
 	wd.p, err = wallet.NewSingleAddressWallet(wd.pkey, wd.cm, orderedStore{wd.ps, 0}, wd.syncer, wallet.WithDebounceInterval(time.Hour))
+	if err != nil {
+		return err
+	}
+	wd.tw, err = wallet.NewSingleAddressWallet(wd.wkey, wd.cm, orderedStore{wd.ts, 0}, wd.syncer, wallet.WithDebounceInterval(time.Hour))
 	return err
 }
 
@@ -353,6 +369,9 @@ func (wd *world) close() {
 	}
 	if wd.p != nil {
 		wd.p.Close()
+	}
+	if wd.tw != nil {
+		wd.tw.Close()
 	}
 }
 
@@ -377,17 +396,47 @@ func syncOne(cm *chain.Manager, store *testutil.EphemeralWalletStore, w *wallet.
 	return errors.New("wallet store does not reach the manager's tip")
 }
 
-// sync brings both wallet stores to the manager's tip (the wallet does not
-// subscribe itself; its integrator feeds it, exactly like the repository's
-// own syncDB test helper).
-func (wd *world) sync() error {
-	if err := syncOne(wd.cm, wd.ws, wd.w); err != nil {
-		return fmt.Errorf("INFRA: wallet sync: %w", err)
-	}
+// syncOthers feeds the payer's store and the reference store of the wallet's
+// address; they never lag.
+func (wd *world) syncOthers() error {
 	if err := syncOne(wd.cm, wd.ps, wd.p); err != nil {
 		return fmt.Errorf("INFRA: payer sync: %w", err)
 	}
+	if err := syncOne(wd.cm, wd.ts, wd.tw); err != nil {
+		return fmt.Errorf("INFRA: reference store sync: %w", err)
+	}
 	return nil
+}
+
+// syncWallet brings the store of the wallet under test to the manager's tip
+// (the wallet does not subscribe itself; its integrator feeds it, exactly like
+// the repository's own syncDB test helper).
+func (wd *world) syncWallet() error {
+	if err := syncOne(wd.cm, wd.ws, wd.w); err != nil {
+		return fmt.Errorf("INFRA: wallet sync: %w", err)
+	}
+	return nil
+}
+
+func (wd *world) sync() error {
+	if err := wd.syncOthers(); err != nil {
+		return err
+	}
+	return wd.syncWallet()
+}
+
+// afterChainChange feeds everyone but, if lag is set, the wallet under test.
+func (wd *world) afterChainChange(lag bool) error {
+	if lag {
+		wd.cs.Class("chain-op=wallet-not-fed")
+		return wd.syncOthers()
+	}
+	return wd.sync()
+}
+
+func (wd *world) lagging() bool {
+	tip, _ := wd.ws.Tip()
+	return tip != wd.cm.Tip()
 }
 
 func (wd *world) height() uint64 { return wd.cm.Tip().Height }
@@ -403,7 +452,9 @@ func (wd *world) v2Allowed() bool {
 // snapshot is the harness' own view of the facts the property talks about,
 // taken from the wallet's store (unspent set) and the manager's pool directly.
 type snapshot struct {
-	tip     types.ChainIndex
+	tip     types.ChainIndex              // the wallet store's tip
+	cmTip   types.ChainIndex              // the manager's tip (differs while the wallet lags)
+	chainU  map[scID]types.SiacoinElement // unspent for the address at the manager's tip (reference store)
 	U       map[scID]types.SiacoinElement // store's unspent set
 	P       map[scID]bool                 // spent by a pooled transaction
 	E       map[scID]types.SiacoinElement // created by a pooled transaction for the wallet, unspent in the pool
@@ -417,8 +468,17 @@ func (wd *world) snapshot() (snapshot, error) {
 		return s, err
 	}
 	s.tip = tip
-	if tip != wd.cm.Tip() {
-		return s, fmt.Errorf("INFRA: wallet store tip %v != manager tip %v", tip, wd.cm.Tip())
+	s.cmTip = wd.cm.Tip()
+	s.chainU = map[scID]types.SiacoinElement{}
+	rtip, rutxos, err := wd.ts.UnspentSiacoinElements()
+	if err != nil {
+		return s, err
+	}
+	if rtip != s.cmTip {
+		return s, fmt.Errorf("INFRA: reference store tip %v != manager tip %v", rtip, s.cmTip)
+	}
+	for _, u := range rutxos {
+		s.chainU[u.ID] = u
 	}
 	for _, u := range utxos {
 		s.U[u.ID] = u
@@ -808,7 +868,7 @@ func (wd *world) opMine(op Op) error {
 	} else {
 		wd.cs.Class("mine=to-other")
 	}
-	return wd.sync()
+	return wd.afterChainChange(op.Lag)
 }
 
 func (wd *world) opReorg(op Op) error {
@@ -876,7 +936,7 @@ func (wd *world) opReorg(op Op) error {
 		return fmt.Errorf("INFRA: fork of %d blocks from %d back did not become the best chain", len(fork), k)
 	}
 	wd.cs.Classf("reorg-depth=%d", k)
-	return wd.sync()
+	return wd.afterChainChange(op.Lag)
 }
 
 // ---------------------------------------------------------------- ops
@@ -1027,6 +1087,27 @@ func fakeInputsV2(n int) []types.V2SiacoinInput {
 	return ins
 }
 
+// checkBasis: the index a v2 funding call returns "should be used as the basis
+// for AddV2PoolTransactions", i.e. it names the accumulator state the inputs'
+// Merkle proofs belong to. The proofs came from the wallet's store, so they
+// must verify at that index also when the manager is ahead of the store.
+func (wd *world) checkBasis(where string, basis types.ChainIndex, txns []types.V2Transaction) error {
+	storeTip, _ := wd.ws.Tip()
+	st, ok := wd.cm.State(basis.ID)
+	if !ok {
+		return fmt.Errorf("%s: the returned basis %v is unknown to the manager (store tip %v, chain tip %v)", where, basis, storeTip, wd.cm.Tip())
+	}
+	for i, txn := range txns {
+		if err := st.Elements.ValidateTransactionElements(txn); err != nil {
+			return fmt.Errorf("%s: txn %d: the Merkle proofs of the selected inputs do not verify at the returned basis %v (store tip %v, chain tip %v): %v", where, i, basis, storeTip, wd.cm.Tip(), err)
+		}
+	}
+	if basis != wd.cm.Tip() {
+		wd.cs.Class("basis=behind-the-chain-tip")
+	}
+	return nil
+}
+
 func (wd *world) opFund(op Op, step int) error {
 	where := fmt.Sprintf("step %d fund(v2=%v,useUnconfirmed=%v)", step, op.V2, op.U)
 	pre, err := wd.view(time.Now(), time.Now())
@@ -1066,8 +1147,10 @@ func (wd *world) opFund(op Op, step int) error {
 		t1 = time.Now()
 		callErr = err
 		if err == nil {
-			if basis != wd.cm.Tip() {
-				return fmt.Errorf("%s: returned basis %v, tip is %v", where, basis, wd.cm.Tip())
+			if len(ids) == 0 && len(txn.SiacoinInputs) > nIn {
+				if err := wd.checkBasis(where, basis, []types.V2Transaction{{SiacoinInputs: txn.SiacoinInputs[nIn:]}}); err != nil {
+					return err
+				}
 			}
 			if len(toSign) != len(txn.SiacoinInputs)-nIn {
 				return fmt.Errorf("%s: %d inputs added, %d indices to sign", where, len(txn.SiacoinInputs)-nIn, len(toSign))
@@ -1307,8 +1390,8 @@ func (wd *world) opSubmit(op Op, step int) error {
 	for _, id := range r.ids {
 		if snap.P[id] {
 			must, why = false, "input-spent-by-other-pool-txn"
-		} else if u, ok := snap.U[id]; ok {
-			if u.MaturityHeight > snap.tip.Height {
+		} else if u, ok := snap.chainU[id]; ok {
+			if u.MaturityHeight > snap.cmTip.Height {
 				must, why = false, "input-immature-after-reorg"
 			}
 		} else if _, ok := snap.E[id]; ok {
@@ -1547,8 +1630,8 @@ func (wd *world) opRedistribute(op Op, step int) error {
 		}
 		return nil
 	}
-	if basis != wd.cm.Tip() {
-		return fmt.Errorf("%s: returned basis %v, tip is %v", where, basis, wd.cm.Tip())
+	if err := wd.checkBasis(where, basis, txns); err != nil {
+		return err
 	}
 	if len(toSign) != len(txns) {
 		return fmt.Errorf("%s: %d transactions, %d sign lists", where, len(txns), len(toSign))
@@ -1716,6 +1799,9 @@ func (wd *world) opRestart(op Op) error {
 	}
 	// reservations live in memory only
 	wd.res = map[scID]resv{}
+	if wd.lagging() {
+		wd.cs.Class("restart=while-wallet-lags")
+	}
 	if n := len(wd.cm.V2PoolTransactions()); n > 0 {
 		wd.cs.Class("restart=v2-transactions-in-pool-afterwards")
 		if op.B%2 == 1 {
@@ -1723,7 +1809,7 @@ func (wd *world) opRestart(op Op) error {
 			wd.cs.Class("restart=node:broadcast-sets-reloaded-into-pool")
 		}
 	}
-	return wd.sync()
+	return wd.syncOthers()
 }
 
 // ---------------------------------------------------------------- run
